@@ -20,6 +20,8 @@ func main() {
 	switch os.Args[1] {
 	case "tx":
 		runTx()
+	case "script":
+		runScript()
 	default:
 		fmt.Fprintf(os.Stderr, "unknown subcommand %q\n", os.Args[1])
 		os.Exit(2)
